@@ -299,6 +299,28 @@ def mon_c11(ex, info, col):
     return out
 
 
+def mon_rules_accepted(ex, info, col):
+    """every rule value must be accepted where allocation uses it (no exception out of the sort functions)"""
+    col.checks["c11.rule-accepted-in-allocation"] += 1
+    t0 = info.spec["tasks"][0]
+    col.nontrivial.add(hash((info.key, t0.get("wrule"), t0.get("frule"), t0.get("wprule"))))
+    if ex.error is not None and "base_priority_rule" in ex.error:
+        site = ex.error.split("@")[-1].strip()
+        return [M.V("C11", "C11:rule-not-accepted-in-allocation:%s:%s" % (ex.error.split(":")[0], site), ex,
+                    {"error": ex.error, "rules(worker, facility, workplace)": [t0.get("wrule"), t0.get("frule"), t0.get("wprule")]})]
+    return []
+
+
+def rule_items(tier):
+    out = []
+    base = F.rule_sensitive_specs()[0]
+    for wrule, frule, wprule in itertools.product(("MW", "SSP", "VC", "HSV"), ("MW", "SSP", "VC", "HSV"), ("FSS", "SSP")):
+        sp = dict(base, tasks=[dict(t, wrule=wrule, frule=frule, wprule=wprule) for t in base["tasks"]])
+        for rule in (("TSLACK",) if tier == "quick" else ("TSLACK", "SPT", "FIFO")):
+            out.append((sp, {"rule": rule, "max_time": F.seq_bound(sp) + 8}))
+    return out
+
+
 def alloc_items(tier):
     out = []
     works = [(1, 2, 3), (2, 2, 1), (3, 1, 2), (1, 1, 1)]
@@ -331,9 +353,12 @@ def run(tier, seed):
     ai = alloc_items(tier)
     H, D = (4, 1) if tier == "quick" else (5, 2)
     col.merge(stepcheck.explore(ai, [mon_c11], H, D, who_fn=lambda sp: stepcheck.default_who(sp, facilities=False), seed=seed))
+    ri = rule_items(tier)
+    col.merge(stepcheck.explore(ri, [mon_rules_accepted, mon_c11], 3, 1, seed=seed))
     meta = {
         "level": "model_checking",
-        "rule": "(sorting) every list of <= %d tasks over key-field pairs in {0,1,2}^2 (incl. ties) x 9 task rules; every list of workers over (other skill, cost, target skill in {missing,0,1,2}, "
+        "rule": "(rules in use) a two-workplace facility model under every combination of worker rule x facility rule x workplace rule (4x4x2) given per task, explored over absence answers: no rule value may make "
+        "the allocation raise; (sorting) every list of <= %d tasks over key-field pairs in {0,1,2}^2 (incl. ties) x 9 task rules; every list of workers over (other skill, cost, target skill in {missing,0,1,2}, "
         "main_workplace_id in {None, identical object, equal but distinct string, other}) x 4 rules x target workplace given or not; facilities x 4 rule values; workplaces over capacity/placed/skill x 2 rules: "
         "result is a permutation, ordered by the documented primary key, no exception; (allocation) 3 (thorough 4) tasks with distinct and tied keys x {none, FS, SS link} x {POOL1,POOL2,SOLO} x 9 rules x both "
         "task_list orders, explored over absence answers up to H with <= D deviations: no worker is newly given to a task while a strictly higher-priority READY/WORKING task it is eligible for could still "
@@ -363,4 +388,4 @@ def replay(v):
             inp = [x for k, x in d.items() if k.startswith("input")][0]
             col = work_fac_wp([(kind, mode, len(inp))])
         return [x for x in col.violations if x["sig"] == sig]
-    return stepcheck.replay(v, [mon_c11])
+    return stepcheck.replay(v, [mon_rules_accepted, mon_c11])
